@@ -155,6 +155,95 @@ func runC02(c *Ctx) {
 		R.Info("R02.1", m.d.Name+"#forms", m.d.ReceiveProbe.Pos(), m.d.Name, "accepted forms: "+strings.Join(fl, " "))
 	})
 	checkBudget(c)
+	checkSackRelative(c)
+	checkQuoteHelpers(c)
+}
+
+// checkSackRelative is R02.5: SACK edges are ordered only after subtracting the initial sequence number,
+// otherwise the minimum is wrong whenever localInitSeq+MaxTTL wraps around 2^32.
+func checkSackRelative(c *Ctx) {
+	R := c.R
+	f := c.P.Func("sack.getMinSack")
+	if f == nil {
+		R.Fail("R02.5", "sack.getMinSack#anchor", 0, "", "anchor sack.getMinSack no longer resolves")
+		return
+	}
+	fn := core.FuncName(f)
+	n := 0
+	for _, b := range f.Blocks {
+		iff, ok := b.Instrs[len(b.Instrs)-1].(*ssa.If)
+		if !ok {
+			continue
+		}
+		bo, ok := iff.Cond.(*ssa.BinOp)
+		if !ok {
+			continue
+		}
+		switch bo.Op.String() {
+		case "<", ">", "<=", ">=":
+		default:
+			continue
+		}
+		if bits, _ := core.IntBits(bo.X.Type()); bits != 32 {
+			continue
+		}
+		n++
+		for _, pa := range firstPath(f, b) {
+			env := core.NewEnv(c.P, pa)
+			x, y := env.Term(bo.X), env.Term(bo.Y)
+			rel := func(t *core.Term) bool {
+				return t.Op == "loopphi" || t.Op == "const" || t.Has(func(z *core.Term) bool {
+					return z.Op == "binop" && z.Name == "-" && z.Args[1].String() == "param:localInitSeq"
+				})
+			}
+			R.Check(rel(x) && rel(y), "R02.5", fmt.Sprintf("%s#ordered-compare@b%d", fn, b.Index), bo.Pos(), fn, "sequence numbers are compared relative to the initial sequence number", "SACK edges are ordered as absolute 32-bit sequence numbers ("+x.String()+" "+bo.Op.String()+" "+y.String()+"): the minimum is wrong when the probe sequence numbers wrap around 2^32")
+		}
+	}
+	R.Floor("R02.5:ordered-comparisons", n, 1)
+}
+
+// rawQuoteHelpers: reviewed module functions that may inspect the raw quoted header bytes.
+var rawQuoteHelpers = map[string]string{
+	"packets.extractEmbeddedIPv6": "skips the 4-byte ICMPv6 prefix after checking the IP version nibble only",
+}
+
+// checkQuoteHelpers extends R02.2 into the parser: the success of GetICMPInfo may not depend on a module helper that
+// computes over the raw quoted header (where routers rewrite TTL, TOS and checksum), nor on a rewritten field of the decoded quote.
+func checkQuoteHelpers(c *Ctx) {
+	R := c.R
+	f := c.P.Func("(*packets.FrameParser).GetICMPInfo")
+	if f == nil {
+		return
+	}
+	fn := core.FuncName(f)
+	rps, _ := core.ReturnPaths(c.P, f, 3000)
+	n := 0
+	for _, rp := range rps {
+		if !rp.Results[len(rp.Results)-1].IsConst("nil") {
+			continue
+		}
+		n++
+		for _, a := range rp.Atoms {
+			bad := ""
+			a.Cond.Walk(func(x *core.Term) bool {
+				if x.Op == "call" && strings.HasPrefix(x.Name, "packets.") && rawQuoteHelpers[x.Name] == "" {
+					for _, arg := range x.Args {
+						if strings.Contains(arg.String(), ".Payload") && (strings.Contains(arg.String(), "ICMP4") || strings.Contains(arg.String(), "ICMP6")) {
+							bad = "module helper " + x.Name + " computed over the raw quoted header bytes"
+						}
+					}
+				}
+				if x.Op == "field" && rewrittenFields[x.Name] && strings.Contains(x.Args[0].String(), "innerPkt") {
+					bad = "the quoted header's " + x.Name
+				}
+				return bad == ""
+			})
+			if bad != "" {
+				R.FailPath("R02.2", fn+"#success-condition", rp.Ret.Pos(), fn, "GetICMPInfo succeeds only under a condition on "+bad+": real routers rewrite TTL, TOS and checksum of the quoted header, so genuine replies would be dropped", rp.Path.String())
+			}
+		}
+	}
+	R.OK("R02.2", fn+"#success-paths", f.Pos(), fn, fmt.Sprintf("%d success paths examined for conditions on router-rewritten quote bytes", n))
 }
 
 // deniedICMPInfoFields maps each ICMPInfo field that is derived from a
